@@ -180,7 +180,7 @@ def _insert_remove(case, ctx):
     desc, a = case['shape'], case['dir']
     pd = desc['pdim']
     p = desc['degrees'][a]
-    kv = desc['kvs'][a]
+    kv = [float(k) for k in _dirs(S.build(desc, ctx.seed))[a]]      # the knot vector the object really has
     ctx.state(dict(d=desc, a=a), nontrivial=A.is_nontrivial(desc))
     params = case.get('params') or _insert_params(p, kv)
     for u in params:
